@@ -7,11 +7,13 @@
    FULL STATEMENT of the property (all methods, objects created with or without x, 1-D and 2-D):
      forall programs of ONE method with identical non-data arguments, forall schedules, every thread's
      outcome is the serial one.
-   It is REFUTED on the current tree for (a) first calls on an object created without x and (b) the
-   composite adaptive_minmax (witnesses below), so what is proved is the statement restricted to
-   "x present and all polynomial segments request one order, all spline segments one (knots, degree)":
-   C04_single_order_safe (unbounded in the number of threads, the schedule, the cache history).
-   2-D objects are covered by schedule replay / oracle only (no 2-D thread program in Coq). *)
+   It is REFUTED on the current tree for the composite adaptive_minmax (witness below) and, by replay on
+   the real threads, for first calls on a Baseline2D created without x/z (no 2-D thread program in Coq).
+   What is proved (unbounded in the number of threads, the schedule, the cache history): the statement
+   for all programs whose polynomial segments request one order and whose spline segments request one
+   (knots, degree), on an object with x present (C04_single_order_safe) AND on a freshly created object
+   without x (C04_first_call_safe; holds since f1bf5e1 stores _size before x -- the schedule that failed
+   before is kept as a replayed regression case). *)
 From Coq Require Import ZArith List Bool.
 From PB Require Import C04.Sched C04.Model C04.Proofs.
 Import ListNotations.
@@ -29,7 +31,7 @@ Open Scope Z_scope.
      - every finished thread has outcome 0 (= serial), unfinished ones have no deviation so far. *)
 Theorem C04_single_order_safe : forall N p kd dup v0 cache spl0 progs sched,
   match cache with Some h => cache_consistent h | None => True end ->
-  Forall (prog_ok N p dup kd) progs ->
+  Forall (prog_ok true N p dup kd) progs ->
   let st := run_sched sched (init_shared N dup v0 cache spl0, map init_local progs) in
   length (snd st) = length progs /\
   Forall (fun l => (forall e, lpc l <> PErr e) /\ Forall (use_ok N p dup kd) (luses l) /\
@@ -42,10 +44,10 @@ Print Assumptions C04_single_order_safe.
    reachable state *)
 Theorem C04_reachable_invariant : forall N p kd dup v0 cache spl0 progs sched,
   match cache with Some h => cache_consistent h | None => True end ->
-  Forall (prog_ok N p dup kd) progs ->
+  Forall (prog_ok true N p dup kd) progs ->
   exists q0 wm,
     let st := run_sched sched (init_shared N dup v0 cache spl0, map init_local progs) in
-    G N p q0 dup wm kd spl0 (fst st) /\ Forall (L N p q0 dup wm kd (fst st)) (snd st).
+    G N p q0 dup wm true kd spl0 (fst st) /\ Forall (L N p q0 dup wm true kd (fst st)) (snd st).
 Proof. exact single_order_inv. Qed.
 Print Assumptions C04_reachable_invariant.
 
@@ -60,14 +62,27 @@ Theorem C04_sched_run_inv : forall (Sh Lo : Type) (step : Sh -> Lo -> Sh * Lo)
 Proof. exact run_inv. Qed.
 Print Assumptions C04_sched_run_inv.
 
-(* REFUTED on the current tree: first concurrent calls on an object created without x.
-   Two threads call poly(y, poly_order=3); schedule [0;0;1;1] then completion: thread 1 raises
-   (outcome 3 = ValueError "length mismatch for data; expected None"), serially both succeed. *)
-Theorem C04_first_call_refuted : exists sched,
-  outcomes 200 (Some (40, false)) sched (cold None true, [init_local poly3; init_local poly3]) = [0; 3] /\
-  outcomes 200 (Some (40, false)) [] (cold None true, [init_local poly3; init_local poly3]) = [0; 0].
-Proof. exists [0; 0; 1; 1]%nat. exact first_call_witness. Qed.
-Print Assumptions C04_first_call_refuted.
+(* FIRST CALLS on an object created WITHOUT x_data (x, _size, _shape unset; _validated_x = True; caches
+   empty): for ANY number of threads whose data have the same length N, ANY schedule, programs as above
+   (each starting with a prologue): no thread reaches an error state, every value read for use is the
+   serial one (x = linspace of length N, _size = _shape = N, Vandermonde of order p, ...). *)
+Theorem C04_first_call_safe : forall N p kd progs sched,
+  Forall (prog_ok false N p false kd) progs ->
+  let st := run_sched sched (fresh_shared, map init_local progs) in
+  length (snd st) = length progs /\
+  Forall (fun l => (forall e, lpc l <> PErr e) /\ Forall (use_ok N p false kd) (luses l) /\
+                   (outcome (Some (N, false)) l = 0 \/ (outcome (Some (N, false)) l = 9 /\ ltodo l <> [])))
+         (snd st).
+Proof. exact first_call_safe. Qed.
+Print Assumptions C04_first_call_safe.
+
+(* regression witness: the schedule that made thread 1 raise before f1bf5e1 now gives serial outcomes,
+   and Baseline().poly(y, poly_order=3) satisfies the hypothesis of C04_first_call_safe *)
+Theorem C04_first_call_regression :
+  outcomes 200 (Some (40, false)) [0; 0; 1; 1]%nat (fresh_shared, [init_local poly3; init_local poly3]) = [0; 0] /\
+  prog_ok false 40 3 false (8, 3) poly3.
+Proof. exact first_call_regression. Qed.
+Print Assumptions C04_first_call_regression.
 
 (* REFUTED on the current tree: adaptive_minmax(poly_order=2) on a shared object with x present.
    Thread 0 pre-empted after k of its accesses, thread 1 run to completion:
@@ -80,12 +95,12 @@ Proof. exists (amm_sched 16), (amm_sched 14). exact adaptive_minmax_witness. Qed
 Print Assumptions C04_adaptive_minmax_refuted.
 
 (* adaptive_minmax does not satisfy the single-order hypothesis for any p *)
-Theorem C04_adaptive_minmax_outside_hypothesis : forall p, ~ prog_ok 40 p false (8, 3) amm.
+Theorem C04_adaptive_minmax_outside_hypothesis : forall p, ~ prog_ok true 40 p false (8, 3) amm.
 Proof. exact amm_not_single_order. Qed.
 Print Assumptions C04_adaptive_minmax_outside_hypothesis.
 
 Example C04_hypotheses_nonvacuous :
-  prog_ok 40 3 false (8, 3) poly3 /\
-  prog_ok 40 3 false (8, 3) (prog_poly_call true 40 3 MWt 4 ++ [SPro false true 40; SSpl 8 3; SUseSpl 8 3]) /\
+  prog_ok true 40 3 false (8, 3) poly3 /\
+  prog_ok true 40 3 false (8, 3) (prog_poly_call true 40 3 MWt 4 ++ [SPro false true 40; SSpl 8 3; SUseSpl 8 3]) /\
   cache_consistent (mkH (Some 5) 5 false (Some 5)) /\ cache_consistent (mkH (Some 2) 2 true (Some 7)).
 Proof. exact prog_ok_examples. Qed.
